@@ -117,6 +117,8 @@ const (
 	FrameBadTimestamp = "bad_timestamp"
 	FrameNoSpace      = "no_space"
 	FrameEmptyPayload = "empty_payload"
+	// FrameBadDate: a well-formed fixed-width timestamp naming a day that does not exist.
+	FrameBadDate = "bad_date"
 )
 
 // EncodeFrame encodes one record in stdcopy framing. With timestamps=false
@@ -134,6 +136,9 @@ func (c Container) EncodeFrame(r Record, timestamps bool, kind string) []byte {
 		payload = append([]byte(c.FormatRec(r)+" "), r.Msg...)
 	case FrameBadTimestamp:
 		payload = append([]byte("20x3-13-45T99:99:99Z "), r.Msg...)
+	case FrameBadDate:
+		day := []string{"2023-02-30", "2024-04-31", "2100-02-29", "2023-02-29", "2023-06-31", "2023-11-31"}[int(uint64(r.TS)%6)]
+		payload = append([]byte(day+"T12:00:00.000000000Z "), r.Msg...)
 	case FrameNoSpace:
 		payload = []byte(strings.ReplaceAll(c.FormatTS(r.TS), " ", "") + "nospace")
 	case FrameEmptyPayload:
